@@ -19,6 +19,8 @@ def run(chk, tier):
     # ("this header type was validated already"): those hold only while each memo cache belongs to one validator
     import gguard
     gguard.check_memo_caches(chk)
+    import gcalls
+    gcalls.check_order(chk)
     gtpl.check(chk)
     gtab.check(chk, gen.facts(), which=("keys",))
     root, results = schemas.generate_all()
